@@ -54,7 +54,9 @@ def _gen_one(job):
     if kind != "lemma":
         try:
             from .extract import loop_shape
-            shape = loop_shape(repo.function(qualname)[1])
+            c_ = REGISTRY.get(qualname)
+            lenient = tuple(k for k, ls in (c_.loops.items() if c_ is not None else ()) if ls.summarise in ("stateless", "map"))
+            shape = loop_shape(repo.function(qualname)[1], lenient)
         except Exception:
             shape = None
     return {
